@@ -15,6 +15,11 @@ Modelled after
 * `AbstractValueWithQuantityObject.CreateCopy(unit=…)`       → `createCopy`
 * the unit handling of `UnitDatabase.AddCategory` (valid units, default unit; `from_category`,
   limits and the caption default are not modelled: the caption is always passed)  → `addCategory`
+* `AbstractValueWithQuantityObject.__init__(category, None, unit)` with `Scalar._GetDefaultValue` /
+  `FractionScalar._GetDefaultValue` / `Array._GetDefaultValue` / `FixedArray._GetDefaultValue`
+  → `createValueless`, `defaultValueIn`, `constDefault`, `createDefault`, `createDefaultList`
+* `Array.CreateCopy(unit=…)` → `createCopyList`; `UnitDatabase.GetUnitName` → `getUnitName`
+* `AddCategory` with `default_value`, limits and exclusivity flags → `addCategoryFull`
 `UnitDatabase.GetInfo`/`Convert`/`CheckCategoryUnit` are `Db.getInfo`/`Db.convert`/
 `Db.categoryUnitValid` of `Model/Conv.lean`; `FixUnitIfIsLegacy` is `fixLegacy`/`isLegacy` of
 `Model/Legacy.lean`.
@@ -209,6 +214,66 @@ def Db.createCopy (db : Db) (q : Simple) (x : Rat) (u : Sym) : Except ErrKind (S
     | .error e => .error e
     | .ok q' => .ok (q', v)
 
+/-! ### value objects created WITHOUT a value (`Scalar(category, unit=u)`, …) -/
+
+/-- `Scalar._GetDefaultValue(category_info, unit)` (and `FractionScalar._GetDefaultValue`): the
+default value of the category, which is expressed in the category's default unit, converted to the
+requested unit through `ObtainQuantity(default_unit, category).ConvertScalarValue(value, unit)`;
+without a unit the number itself -/
+def Db.defaultValueIn (db : Db) (ci : CatRow) : Option Sym → Except ErrKind Rat
+  | none => .ok ci.defaultValue
+  | some u =>
+    match db.newQuantity ci.name ci.defaultUnit with
+    | .error e => .error e
+    | .ok q => db.getValue q ci.defaultValue u
+
+/-- `Array._GetDefaultValue` (`n = 0`: the empty list) and `FixedArray._GetDefaultValue`
+(`[0.0] * dimension`): the unit is ignored -/
+def constDefault (n : Nat) (_ : CatRow) (_ : Option Sym) : Except ErrKind (List Rat) :=
+  .ok (List.replicate n 0)
+
+/-- `AbstractValueWithQuantityObject.__init__(category, None, unit)` for a category string: the
+category info is fetched (`InvalidQuantityTypeError` for an unknown one), the default value is asked
+from the subclass (`dv`), a missing unit becomes the default unit of the category, and the quantity
+comes from `ObtainQuantity(unit, category)` -/
+def Db.createValueless {α : Type} (db : Db) (dv : CatRow → Option Sym → Except ErrKind α) (c : Sym)
+    (u : Option Sym) : Except ErrKind (Simple × α) :=
+  match db.catByName c with
+  | none => .error .units
+  | some ci =>
+    match dv ci u with
+    | .error e => .error e
+    | .ok v =>
+      match db.obtainQuantity (match u with | some u => u | none => ci.defaultUnit) (some c) with
+      | .error e => .error e
+      | .ok q => .ok (q, v)
+
+/-- `Scalar(category, unit=u)` / `FractionScalar(category, unit=u)` -/
+def Db.createDefault (db : Db) (c : Sym) (u : Option Sym) : Except ErrKind (Simple × Rat) :=
+  db.createValueless db.defaultValueIn c u
+
+/-- `Array(category, unit=u)` (`n = 0`) / `FixedArray(n, category, unit=u)` -/
+def Db.createDefaultList (db : Db) (n : Nat) (c : Sym) (u : Option Sym) :
+    Except ErrKind (Simple × List Rat) :=
+  db.createValueless (constDefault n) c u
+
+/-- `Array.CreateCopy(unit=u)` / `FixedArray.CreateCopy(unit=u)` for a flat list: the values read in
+the new unit, the quantity obtained for the new unit in the old category -/
+def Db.createCopyList (db : Db) (q : Simple) (xs : List Rat) (u : Sym) :
+    Except ErrKind (Simple × List Rat) :=
+  match db.getValues q xs u with
+  | .error e => .error e
+  | .ok vs =>
+    match db.obtainQuantity u (if q.cat != 0 then some q.cat else none) with
+    | .error e => .error e
+    | .ok q' => .ok (q', vs)
+
+/-- `UnitDatabase.GetUnitName(quantity_type, unit)` = `GetInfo(quantity_type, unit).name` -/
+def Db.getUnitName (db : Db) (qt u : Sym) : Except ErrKind Sym :=
+  match db.getInfo qt u false true with
+  | .ok r => .ok r.name
+  | .error e => .error e
+
 /-! ### `AddCategory`: the unit arguments -/
 
 /-- the loop over `valid_units`: each entry is rewritten and must be a unit of the quantity type
@@ -264,5 +329,59 @@ def Db.addCategory (db : Db) (name qt : Sym) (valid : Option (List Sym)) (dflt :
     | .error e => .error e
     | .ok d =>
       .ok { db with cats := upsertCat ⟨name, qt, valid', d, 0, none, none, false, false, caption⟩ db.cats }
+
+/-! ### `AddCategory` with default value and limits -/
+
+/-- is `v` outside the lower limit `mn` (exclusive or not)? -/
+def belowMin (mn : Option Rat) (minx : Bool) (v : Rat) : Bool :=
+  match mn with
+  | none => false
+  | some m => if minx then !(m < v) else !(m ≤ v)
+
+def aboveMax (mx : Option Rat) (maxx : Bool) (v : Rat) : Bool :=
+  match mx with
+  | none => false
+  | some m => if maxx then !(v < m) else !(v ≤ m)
+
+/-- the `default_value` argument: `None` → the lower limit, else the upper limit, else zero
+(`RuntimeError` when a limit is exclusive); a number → must respect the limits (`assert`) -/
+def chooseDefaultValue (dv mn mx : Option Rat) (minx maxx : Bool) : Except ErrKind Rat :=
+  match dv with
+  | none =>
+    if minx || maxx then .error .runtime else
+    match mn with
+    | some m => .ok m
+    | none =>
+      match mx with
+      | some m => .ok m
+      | none => .ok 0
+  | some v =>
+    if belowMin mn minx v then .error .assertion
+    else if aboveMax mx maxx v then .error .assertion
+    else .ok v
+
+/-- `max_value < min_value` when both are given (`ValueError`) -/
+def limitsCrossed : Option Rat → Option Rat → Bool
+  | some a, some b => decide (b < a)
+  | _, _ => false
+
+/-- `AddCategory(category, quantity_type, valid_units, override, default_unit, default_value,
+min_value, max_value, is_min_exclusive, is_max_exclusive, caption)` (no `from_category`; the
+caption argument is non-empty) -/
+def Db.addCategoryFull (db : Db) (name qt : Sym) (valid : Option (List Sym)) (dflt : Option Sym)
+    (caption : Sym) (override : Bool) (dv mn mx : Option Rat) (minx maxx : Bool) : Except ErrKind Db :=
+  if !override && db.hasCat name then .error .units else
+  if limitsCrossed mn mx then .error .value else
+  if !db.hasType qt then .error .units else
+  match db.fixValidOpt qt valid with
+  | .error e => .error e
+  | .ok valid' =>
+    match db.chooseDefault qt valid' dflt with
+    | .error e => .error e
+    | .ok d =>
+      match chooseDefaultValue dv mn mx minx maxx with
+      | .error e => .error e
+      | .ok v =>
+        .ok { db with cats := upsertCat ⟨name, qt, valid', d, v, mn, mx, minx, maxx, caption⟩ db.cats }
 
 end Barril
